@@ -123,8 +123,29 @@ class Inv:
                 inner = L2
         slot_pushes = [p_ for p_ in q.calls(cv, 'std::vec::Vec::push') if inner is not None and p_.bb in inner['body'] and
                        'Option<cel::RawCel' in (p_.args[1]['p']['ty'] if p_.args[1]['k'] in ('copy', 'move') else p_.args[1].get('ty', ''))]
-        if len(slot_pushes) != 1 or not all(cv.cfg.dominates(slot_pushes[0].bb, x) for x, _ in inner['back_edges']):
-            return False, 'the validated cel row is not filled with exactly one push per slot of the raw row (%d pushes, or a path round the push)' % len(slot_pushes)
+        # exactly one push on every way through an iteration: none of the back edges is reachable from the header with the push blocks
+        # taken out, and no push can be followed by another one within the same iteration
+        pbs = {p_.bb for p_ in slot_pushes}
+        body_ = set(inner['body'])
+        hdr = inner['header']
+
+        def reach(src, avoid):
+            seen, st_ = set(), [src]
+            while st_:
+                x = st_.pop()
+                if x in seen or x in avoid or x not in body_:
+                    continue
+                seen.add(x)
+                for y in cv.cfg.succ[x]:
+                    if y != hdr:
+                        st_.append(y)
+            return seen
+        free = reach(hdr, pbs)
+        bypass = any(x in free for x, _ in inner['back_edges'])
+        double = any(any(y in pbs for x in reach(s_, set()) for y in [x]) for p_ in pbs for s_ in cv.cfg.succ[p_] if s_ != hdr)
+        if not slot_pushes or bypass or double:
+            return False, 'the validated cel row is not filled with exactly one push per slot of the raw row (%d push sites, a way round them: %s, two on one way: %s)' % (
+                len(slot_pushes), bypass, double)
         # Some(cel) is only pushed from that validated value; None otherwise
         pr = chain_propagates(fx, cv.name)
         if pr:
